@@ -39,7 +39,14 @@ func load() {
 		root = "/verif"
 	}
 
-	b, err := os.ReadFile(filepath.Join(root, "known_findings.json"))
+	path := filepath.Join(root, "known_findings.json")
+
+	// VERIF_KF_FILE: development only - try out proposed entries without touching the committed file.
+	if alt := os.Getenv("VERIF_KF_FILE"); alt != "" {
+		path = alt
+	}
+
+	b, err := os.ReadFile(path)
 	if err != nil {
 		return
 	}
